@@ -308,6 +308,35 @@ func (w *c15worker) check(c c15val) (res *[2]string) {
 			return fail("encoding", "%s value %x: encoded record differs from the RFC 7011 encoding at byte %d (lengths %d/%d; got ...%x, want ...%x)", c.ie.Name, short(c.raw), i, len(buf), len(want), short(buf[min(i, len(buf)):]), short(want[min(i, len(want)):]))
 		}
 	}
+	// an element object that is reused: it held another (longer) value, was reset, and is given this one
+	if c.ie.Len == entities.VariableLength && (c.ie.DataType == entities.String || c.ie.DataType == entities.OctetArray) {
+		prev := bytes.Repeat([]byte{'p'}, 300)
+		var e entities.InfoElementWithValue
+		if c.ie.DataType == entities.String {
+			e = entities.NewStringInfoElement(c.ie, string(prev))
+		} else {
+			e = entities.NewOctetArrayInfoElement(c.ie, prev)
+		}
+		if e.GetLength() != 303 {
+			return fail("length", "%s value of 300 bytes: element reports length %d", c.ie.Name, e.GetLength())
+		}
+		e.ResetValue()
+		if e.GetLength() != 1 {
+			return fail("length", "%s: after ResetValue the element reports length %d, an empty value takes 1 byte", c.ie.Name, e.GetLength())
+		}
+		if c.ie.DataType == entities.String {
+			e.SetStringValue(string(c.raw))
+		} else {
+			e.SetOctetArrayValue(append([]byte{}, c.raw...))
+		}
+		if e.GetLength() != len(field) {
+			return fail("length", "%s value of %d bytes set on a reused element (300 bytes, reset, then this): element reports length %d, RFC 7011 encoding has %d bytes", c.ie.Name, len(c.raw), e.GetLength(), len(field))
+		}
+		rec := entities.NewDataRecordFromElements(w.tid, []entities.InfoElementWithValue{entities.NewUnsigned16InfoElement(w.s1, 0xa55a), e, entities.NewUnsigned16InfoElement(w.s2, 0x5aa5)}, false)
+		if buf := rec.GetBuffer(); !bytes.Equal(buf, want) {
+			return fail("encoding", "%s value %x on a reused element: encoded record has %d bytes, RFC 7011 encoding %d", c.ie.Name, short(c.raw), len(buf), len(want))
+		}
+	}
 	// decode side 1: the collector's field-length reader and the element decoder, directly
 	var value []byte
 	if c.ie.Len == entities.VariableLength {
